@@ -24,6 +24,8 @@ def run(facts, chk, tier, only=None):
     # the operation itself: interpreted on all weed subsets (incl. absent / duplicate k-mers), both modes, stale counts
     from . import tableops
     chk.guard('C13.func', 'C13.func:weed', lambda: tableops.check_weed(facts, chk, 'C13.func', tier))
+    from . import e2e
+    chk.guard('C13.e2e', 'C13.e2e:run', lambda: e2e.check_weed_e2e(facts, chk, 'C13.e2e', tier))
 
     def args():
         g = facts.fn('generic_modes::weed')
